@@ -209,7 +209,8 @@ func (r *Runner) resolveIdentifier(ctx context.Context, expr *Identifier) (inter
 	if v, ok := innerMap.Load(expr.Value); ok {
 		return v, nil
 	}
-	return r.this[expr.Value], nil
+	// (a typed nil pointer is null however it is reached: member access already says so)
+	return formatNilValue(r.this[expr.Value]), nil
 }
 
 func (r *Runner) resolveSelectorExpression(ctx context.Context, expr *SelectorExpression) (interface{}, error) {
